@@ -88,7 +88,7 @@ structure Clean (s : Sess) (n : Int) (m : InMsg) : Prop where
   bs : checkBeginString s m = none
   comp : checkCompID s m = none
   seq : getInt m 34 = .val n
-  valid : validate m = none
+  valid : validate s.cfg m = none
   accepted : callbackVerdict m = none
 
 /-- hand one message to the application and consume its number -/
